@@ -7,6 +7,13 @@ TB_COMMON = [
 ]
 
 HARNESSES = {
+    "pool": {
+        "module": "grpcgcp", "pkg": ".", "test": "TestVerifPool",
+        "files": ["harness/grpcgcp/zz_verif_pool_test.go"], "rewrite": "vclock",
+        "corpus_glob": "*.ops", "corpus_dirs": ["C01", "C02", "C03", "C04", "C05", "C06", "C07", "C08", "C09", "C20"],
+        "episode_start": r"^pool cfg ",
+        "tiers": {"quick": {"episodes": 1500, "nops": 60}, "thorough": {"episodes": 30000, "nops": 80, "seeds": 8}},
+    },
     "me": {
         "module": "grpcgcp", "pkg": "multiendpoint", "test": "TestVerifME",
         "files": ["harness/multiendpoint/zz_verif_me_test.go"],
